@@ -37,6 +37,8 @@ class OnionWorld:
         self.ident_map = {}     # (kind, node, real) -> spec ident
         self.n_ident = 0
         self.raw_log = []       # on_raw_data observations at originators
+        self.last_tick_ms = 0
+        self.depth = 0
         self.flipped = {}       # datagram seq -> {(pos, bit)} already altered
         self.on_step = None     # callback(world, event) after every logged step (property-specific probes)
         self.adv_keys = []      # session keys the attacker could derive from its own handshake material
@@ -80,6 +82,22 @@ class OnionWorld:
                 ov.network.discover_services(p, [ov.community_id])
                 ov.candidates[p] = list(fl)
         self.Peer = Peer
+        for name in ("create_circuit", "send_data", "remove_circuit", "exit_return", "vanish", "node_remove_relay",
+                     "node_remove_exit", "expect_quiet", "deliver", "lose", "dup", "tamper", "tamper_at", "tamper_header",
+                     "splice", "inject", "adv_create", "adv_plain", "forge_destroy", "mangle_answer", "link_e2e",
+                     "send_e2e", "rp_forge", "transports_ready"):
+            setattr(self, name, self._stepper(getattr(self, name)))
+
+    def _stepper(self, fn):
+        def step(*a, **k):
+            if self.depth == 0 and self.now_ms() > self.last_tick_ms:
+                self._emit_tick()
+            self.depth += 1
+            try:
+                return fn(*a, **k)
+            finally:
+                self.depth -= 1
+        return step
 
     # ------------------------------------------------------------------ observation helpers
     def _watch_raw(self, nm, ov):
@@ -723,8 +741,18 @@ class OnionWorld:
                     return ("Noop", {"what": "%s:sock:%s" % (nm, key)})
         return ("Noop", {"what": "unowned"})
 
+    def _idle(self, n):
+        ov = self.ov[n]
+        return not ov.circuits and not ov.relay_from_to and not ov.exit_sockets
+
+    def _emit_tick(self):
+        self.last_tick_ms = self.now_ms()
+        self.log("Tick", t=self.last_tick_ms)
+
     def fire_next_timer(self, horizon=None):
-        """advance the clock to the earliest timer and run exactly it (+ everything it makes ready)."""
+        """advance the clock to the earliest timer and run exactly it (+ everything it makes ready).
+        Timers without any effect on the specification's state (task-manager housekeeping, sweeps and pings of a node
+        whose tables are empty) are fired but not logged; the clock advance is logged lazily before the next step."""
         self._settle()
         ts = self.loop.timers()
         if not ts:
@@ -733,10 +761,17 @@ class OnionWorld:
         if horizon is not None and h._when - self.t0 > horizon:
             return None
         action, args = self.identify_timer(h)
-        t_ms = int(round((h._when - self.t0) * MS))
-        if t_ms > self.now_ms():
+        if h._when > self.loop._vt:
             self.loop._vt = h._when
-            self.log("Tick", t=t_ms)
+        silent = action == "Noop" or (action in ("Sweep", "DoPing") and self._idle(args["n"]))
+        if silent:
+            self.loop.fire_timer(h)
+            self._settle()
+            if action != "Noop" and not self._idle(args["n"]):
+                raise RuntimeError("a timer of an idle node changed its tables")
+            return {"a": "silent"}
+        if self.now_ms() > self.last_tick_ms:
+            self._emit_tick()
         self.loop.fire_timer(h)
         return self.log(action, **args)
 
